@@ -9,7 +9,7 @@ from . import prims
 
 PROPERTY = "C01"
 LEVEL = "other"
-CONFIGS_QUICK = ["std", "core"]
+CONFIGS_QUICK = ["std", "alloc"]
 CONFIGS_THOROUGH = ["std", "alloc", "core"]
 EXPLANATION = (
     "Static conformance check of the wake protocol on the type-checked MIR of every poll body (all tuple arities, "
